@@ -126,9 +126,9 @@ def fallback_voting_winner(instance):
     scores = defaultdict(lambda: 0)
     quota = (instance.num_voters // 2) + 1
     for order, mult in instance.multiplicity.items():
-        scores[order[0][0]] = mult
+        scores[order[0][0]] += mult
     current_pos = 1
-    current_max_value = -1
+    current_max_value = max(scores.values())
     while current_max_value < quota and current_pos < instance.num_alternatives:
         for order, mult in instance.multiplicity.items():
             if len(order) > current_pos:
@@ -151,10 +151,10 @@ def bucklin_voting_winner(instance):
     quota = (instance.num_voters // 2) + 1
     for order in instance.orders:
         multiplicity = instance.multiplicity[order]
-        scores[order[0][0]] = multiplicity
+        scores[order[0][0]] += multiplicity
     current_pos = 1
-    current_max_value = -1
-    while current_max_value < quota:
+    current_max_value = max(scores.values())
+    while current_max_value < quota and current_pos < instance.num_alternatives:
         for order in instance.orders:
             multiplicity = instance.multiplicity[order]
             if len(order) > current_pos:
